@@ -171,7 +171,8 @@ def run_property(pid, tier, seed, only_bounded=None, write=True, quiet=False):
     if not_reestablished and level == 'proof':
         level = 'exploration'       # this run did not re-establish every proof: what it covered is the bounded exploration
     if spec.get('pyvc') or spec.get('finite'):
-        if not all_obl:
+        if not all_obl and not not_reestablished and not undecided:
+            # (when every function under contract has left the subset on a changed tree, the run is reported as such above)
             errors.append('zero obligations generated')
             out('CHECKER-ERROR zero obligations generated')
     coverage = dict(
